@@ -51,7 +51,7 @@ func hasListInList(v any, inList bool) bool {
 
 func c02Opts() genOpts {
 	o := defaultOpts()
-	o.keys = []string{"a", "b", "c", "k1", "x-y", "z_9", "0", "12", "A", "cpu%", "-", "_"} // "-" and "_" alone are names like any other
+	o.keys = []string{"a", "b", "c", "k1", "x-y", "z_9", "0", "12", "A", "cpu%", "-", "_", "café", "ключ"} // "-" and "_" alone are names like any other
 	return o
 }
 
